@@ -12,9 +12,13 @@ import (
 	"hash/fnv"
 	"os"
 	"path/filepath"
+	"regexp"
+	"runtime"
 	"sort"
+	"strings"
 	"sync"
 	"testing"
+	"time"
 
 	_ "github.com/golang/glog" // registers -log_dir / -stderrthreshold in every engine
 	"pgregory.net/rapid"
@@ -390,4 +394,76 @@ func OpenClasses(id string) map[string]Finding {
 		}
 	}
 	return out
+}
+
+// ---- deadlock watchdog for synctest engines -------------------------------------------------
+
+var bubbleGoroutine = regexp.MustCompile(`(?m)^goroutine (\d+) \[([^\]]*)\]:$`)
+
+// bubbleState summarises the goroutines that belong to a synctest bubble:
+// a fingerprint of (id, state) pairs, how many there are, how many are not
+// blocked at all (running/runnable/syscall) and how many are blocked on
+// something synctest does not consider durable (mutexes).
+func bubbleState() (fingerprint string, total, active, nonDurable int, dump string) {
+	buf := make([]byte, 1<<22)
+	buf = buf[:runtime.Stack(buf, true)]
+	dump = string(buf)
+	var parts []string
+	for _, m := range bubbleGoroutine.FindAllStringSubmatch(dump, -1) {
+		state := m[2]
+		if !strings.Contains(state, "synctest bubble") {
+			continue
+		}
+		total++
+		first := strings.SplitN(state, ",", 2)[0]
+		switch {
+		case strings.HasPrefix(first, "running"), strings.HasPrefix(first, "runnable"), strings.HasPrefix(first, "syscall"), strings.HasPrefix(first, "IO wait"):
+			active++
+		case !strings.Contains(first, "(durable)"):
+			nonDurable++
+		}
+		parts = append(parts, m[1]+":"+first)
+	}
+	sort.Strings(parts)
+	return strings.Join(parts, " "), total, active, nonDurable, dump
+}
+
+// Watchdog guards one synctest case against a deadlock that synctest itself
+// cannot report: a goroutine of the code under test blocked on a mutex (not
+// "durably" blocked) keeps both synctest.Wait and the virtual clock from ever
+// making progress, so the process would hang. The verdict is structural, not a
+// timeout: after `after` of real time the watchdog looks at the goroutines of
+// the bubble; only if every one of them is blocked, at least one of them on a
+// lock, and two looks `confirm` apart are identical, it prints a fatal error
+// (the driver turns that into a violation with the scenario announced by
+// Recorder.Current as replay) and exits. A bubble that is merely slow is left
+// alone. The returned function stops the watchdog.
+func Watchdog(after, confirm time.Duration) (stop func()) {
+	done := make(chan struct{})
+	go func() {
+		select {
+		case <-done:
+			return
+		case <-time.After(after):
+		}
+		for {
+			fp1, total, active, nonDurable, _ := bubbleState()
+			select {
+			case <-done:
+				return
+			case <-time.After(confirm):
+			}
+			fp2, total2, active2, nonDurable2, dump := bubbleState()
+			if total > 0 && active == 0 && active2 == 0 && nonDurable > 0 && nonDurable2 > 0 && fp1 == fp2 && total == total2 {
+				select {
+				case <-done:
+					return
+				default:
+				}
+				fmt.Printf("fatal error: verif watchdog: deadlock inside the synctest bubble: all %d goroutines are blocked, %d of them on locks, and nothing changed for %v\n\n%s\n", total, nonDurable, confirm, dump)
+				os.Exit(3)
+			}
+		}
+	}()
+	return func() { close(done) }
 }
